@@ -202,5 +202,20 @@ PROPS["C18"] = dict(
     assumptions=["tools/flow documents Task.Value as callable inside Run; the harness reads it there"],
 )
 
+PROPS["C17"] = dict(
+    pkg="c17",
+    schedule_dependent=True,
+    subs=[
+        dict(name="tidy", test="TestTidy", quick=400, thorough=20000, shards=12),
+        dict(name="modfile", test="TestModFile", quick=5000, thorough=200000, shards=4),
+    ],
+    technique="rapid-generated module universes served by an in-memory registry with latency; validity predicates over Tidy's output (sufficiency, no unused entry, MVS consistency), fixpoint (CheckTidy, idempotence) and order/timing metamorphic relation; module-file Parse/Format round trip with unknown-field rejection",
+    level_text="exploration: universes of 1-6 modules x 1-3 versions (incl. a pre-release) with 1-2 packages each, random acyclic imports with and without major-version suffix, per-version module files; a main module with 1-2 packages and existing deps that are right, stale, too low or missing; optionally an import nobody provides. Tidy's output is checked with predicates, not one expected answer.",
+    level_note="trusted: the import-closure / MVS predicates written for this check; the in-memory registry (fstest.MapFS); modules only import modules of higher index (no import cycles)",
+    rule="tidy: universe + main module; checked: Tidy errs iff an import is unresolvable; every import in the closure (computed on the tidied versions) finds its module in deps; every dep provides a package in that closure; each dep satisfies the requirements of every selected module, is not downgraded, and is one of {existing, required by some module version of the universe, latest} (the requirement-satisfaction clause is counted but not gated: known finding F52); CheckTidy accepts the output and rejects an input that Tidy changes; Tidy(Tidy(x)) == Tidy(x); permuting file names, import order, deps order and registry delays gives the identical file. Non-trivial = an existing dep is upgraded or at least 3 deps result. "
+         "modfile: generated module file value -> text -> Parse -> Format -> Parse must be equal; one appended unknown/malformed field must make Parse fail.",
+    assumptions=["'latest' = highest release version, or highest pre-release when there is no release (modload.LatestVersion's documented behaviour)"],
+)
+
 NOT_APPLICABLE = {}
 HOOK_COMMITS = []
